@@ -38,6 +38,9 @@ type Env struct {
 	Intercept bool
 	// Sub scripts for subscription fields: list of steps per path.
 	SubScript map[string][]string
+	// MapFields: for probes with a map-backed model, the fields of that GraphQL type
+	// (name -> "string" | "*string" | "object")
+	MapFields [][2]string
 }
 
 func (e *Env) logCall(s string) {
@@ -120,6 +123,18 @@ func pathString(ctx context.Context) (path, parent, object, field string) {
 
 func resolve(e *Env, ft reflect.Type, args []reflect.Value) []reflect.Value {
 	ctx := args[0].Interface().(context.Context)
+	return resolveCtx(e, ctx, ft.Out(0))
+}
+
+// ResolveAs is the universal resolver for model METHODS that take a context (hand-written
+// models of the shapes probe): the same plan-driven behaviour as a resolver, result type rt.
+func ResolveAs(e *Env, ctx context.Context, rt reflect.Type) (reflect.Value, error) {
+	out := resolveCtx(e, ctx, rt)
+	err, _ := out[1].Interface().(error)
+	return out[0], err
+}
+
+func resolveCtx(e *Env, ctx context.Context, rt reflect.Type) []reflect.Value {
 	path, _, object, field := pathString(ctx)
 	e.logCall(path + "|" + object + "." + field)
 	e.Event("start " + path)
@@ -130,7 +145,6 @@ func resolve(e *Env, ft reflect.Type, args []reflect.Value) []reflect.Value {
 		e.OnCall(ctx, path)
 	}
 	defer e.Event("end " + path)
-	rt := ft.Out(0)
 	zero := reflect.Zero(rt)
 	noErr := reflect.Zero(errType)
 	if e.HonourCancel && ctx.Err() != nil {
@@ -171,7 +185,12 @@ func (e *Env) fabricate(t reflect.Type, path, field, outcome string) reflect.Val
 	objPath := parentOf(path)
 	switch t.Kind() {
 	case reflect.String:
+		if t.Name() == "Color" {
+			return reflect.ValueOf(ColorOf(objPath, field)).Convert(t)
+		}
 		return reflect.ValueOf(LeafString(objPath, field)).Convert(t)
+	case reflect.Map:
+		return e.mapObject(t, path)
 	case reflect.Int, reflect.Int32, reflect.Int64:
 		return reflect.ValueOf(LeafInt(objPath, field)).Convert(t)
 	case reflect.Bool:
@@ -184,7 +203,7 @@ func (e *Env) fabricate(t reflect.Type, path, field, outcome string) reflect.Val
 			return reflect.ValueOf(&v)
 		}
 		if t.Elem().Kind() == reflect.Struct {
-			return e.object(t, path)
+			return e.object(t, path, true)
 		}
 		p := reflect.New(t.Elem())
 		p.Elem().Set(e.fabricate(t.Elem(), path, field, outcome))
@@ -193,7 +212,7 @@ func (e *Env) fabricate(t reflect.Type, path, field, outcome string) reflect.Val
 		if t == reflect.TypeOf(time.Time{}) {
 			return reflect.ValueOf(LeafTime)
 		}
-		return e.object(reflect.PtrTo(t), path).Elem()
+		return e.object(reflect.PtrTo(t), path, true).Elem()
 	case reflect.Interface:
 		impl := e.DefaultImpl
 		switch outcome {
@@ -204,7 +223,7 @@ func (e *Env) fabricate(t reflect.Type, path, field, outcome string) reflect.Val
 		case "rogue":
 			return reflect.New(e.RogueImpl.Elem()).Convert(t)
 		}
-		return e.object(impl, path).Convert(t)
+		return e.object(impl, path, true).Convert(t)
 	case reflect.Slice:
 		n := 2
 		switch outcome {
@@ -223,7 +242,10 @@ func (e *Env) fabricate(t reflect.Type, path, field, outcome string) reflect.Val
 			if eo == "null" && (nilable(et) || et == reflect.TypeOf(time.Time{})) {
 				continue // nil element / zero time
 			}
-			if et == reflect.TypeOf(time.Time{}) {
+			if et.Kind() == reflect.Slice {
+				// nested list: the inner list sits at the element path
+				s.Index(i).Set(e.fabricate(et, ep, field, "value"))
+			} else if et == reflect.TypeOf(time.Time{}) {
 				s.Index(i).Set(reflect.ValueOf(LeafTime))
 			} else if et == reflect.TypeOf(&time.Time{}) {
 				v := LeafTime
@@ -244,30 +266,92 @@ func (e *Env) fabricate(t reflect.Type, path, field, outcome string) reflect.Val
 }
 
 // object builds *Struct with every plain (non-resolver-backed) leaf field filled from the
-// object's own response path.
-func (e *Env) object(pt reflect.Type, path string) reflect.Value {
+// object's own response path. With fill, struct fields holding OBJECTS (pointer to / slice
+// of pointers to a struct) are filled too, one level deep: the objects created for them
+// ("struct-filled" objects) have no struct-field objects of their own.
+func (e *Env) object(pt reflect.Type, path string, fill bool) reflect.Value {
 	p := reflect.New(pt.Elem())
 	s := p.Elem()
 	st := pt.Elem()
 	for i := 0; i < s.NumField(); i++ {
 		f := s.Field(i)
 		name := jsonName(st.Field(i))
+		switch st.Field(i).Name {
+		case "VEnv":
+			f.Set(reflect.ValueOf(e))
+			continue
+		case "VPath":
+			f.SetString(path)
+			continue
+		}
 		switch f.Kind() {
 		case reflect.String:
-			f.SetString(LeafString(path, name))
+			if f.Type().Name() == "Color" {
+				f.SetString(ColorOf(path, name))
+			} else {
+				f.SetString(LeafString(path, name))
+			}
 		case reflect.Int, reflect.Int64, reflect.Int32:
 			f.SetInt(int64(LeafInt(path, name)))
 		case reflect.Bool:
 			f.SetBool(true)
 		case reflect.Ptr:
-			if f.Type().Elem().Kind() == reflect.String {
-				pv := reflect.New(f.Type().Elem())
-				pv.Elem().SetString(LeafString(path, name))
+			et := f.Type().Elem()
+			switch {
+			case et.Kind() == reflect.String:
+				pv := reflect.New(et)
+				if et.Name() == "Color" {
+					pv.Elem().SetString(ColorOf(path, name))
+				} else {
+					pv.Elem().SetString(LeafString(path, name))
+				}
 				f.Set(pv)
+			case et.Kind() == reflect.Struct && fill && et != reflect.TypeOf(time.Time{}) && StructFillFields[name]:
+				f.Set(e.object(f.Type(), joinPath(path, name), false))
+			}
+		case reflect.Slice:
+			et := f.Type().Elem()
+			if fill && StructFillFields[name] && et.Kind() == reflect.Ptr && et.Elem().Kind() == reflect.Struct {
+				sl := reflect.MakeSlice(f.Type(), 2, 2)
+				for k := 0; k < 2; k++ {
+					sl.Index(k).Set(e.object(et, elemPath(joinPath(path, name), k), false))
+				}
+				f.Set(sl)
 			}
 		}
 	}
 	return p
+}
+
+// StructFillFields: schema field names that are bound to struct fields holding objects
+// (filled by object()); every other object-valued field is resolver / method backed.
+var StructFillFields = map[string]bool{"kidPlain": true, "kidsPlain": true, "sub": true}
+
+// mapObject builds the map[string]any behind a map-backed model at path.
+func (e *Env) mapObject(t reflect.Type, path string) reflect.Value {
+	m := reflect.MakeMap(t)
+	for _, f := range e.MapFields {
+		var v any
+		switch f[1] {
+		case "string":
+			v = LeafString(path, f[0])
+		case "*string":
+			s := LeafString(path, f[0])
+			v = &s
+		case "object":
+			v = e.object(e.DefaultImpl, joinPath(path, f[0]), false).Interface()
+		}
+		m.SetMapIndex(reflect.ValueOf(f[0]), reflect.ValueOf(v))
+	}
+	return m
+}
+
+// ColorOf is the value of an enum (Color) leaf.
+func ColorOf(objPath, field string) string {
+	if LeafInt(objPath, field)%2 == 0 {
+		return "RED"
+	}
+	return "GREEN"
 }
 
 func jsonName(f reflect.StructField) string {
